@@ -336,6 +336,25 @@ def check(cfg, argv):
         if not ok:
             broken.append(("harness does not build against the working tree", out[-1500:]))
 
+    # thorough tier: the independent checker re-checks the compiled property file and everything it depends on
+    # and lists the axioms they rely on (coqchk -o); run under the build lock because it reads the .vo files
+    coqchk_note = None
+    if tier == "thorough" and proof_ok and not replay and os.environ.get("VERIF_NO_COQCHK") != "1":
+        with Lock():
+            try:
+                rc, outc = sh(["coqchk", "-silent", "-o", "-Q", "theories", "Verif", "-Q", "proofs", "VerifProofs", "-Q", "gen", "VerifGen",
+                               "-Q", "props", "VerifProps", "VerifProps.%s" % prop], cwd=COQ, timeout=3000)
+            except Exception as e:  # timeout
+                rc, outc = 1, "coqchk did not finish: %s" % e
+        open(os.path.join(d, "coqchk.log"), "w").write(outc)
+        m = re.search(r"\* Axioms:\s*(.*?)\n\s*\n", outc, re.S)
+        ax = " ".join(m.group(1).split()) if m else "?"
+        if rc != 0:
+            broken.append(("coqchk rejects props/%s.vo" % prop, outc[-1500:]))
+        elif ax != "<none>":
+            broken.append(("coqchk reports axioms under props/%s.vo" % prop, ax))
+        coqchk_note = "coqchk -silent -o VerifProps.%s: exit %d, axioms: %s" % (prop, rc, ax)
+
     known, fixed = load_known(prop)
     known_classes = {c for c, _ in known}
     stats = {}
@@ -432,6 +451,8 @@ def check(cfg, argv):
     tb.append("Coq 8.16.1 kernel + vm_compute; no native_compute; coqc full .vo build via coq_makefile")
     for t in thms:
         tb.append("Print Assumptions %s: %s" % (t, assumptions.get(t, "not available (proof broken)")))
+    if coqchk_note:
+        tb.append(coqchk_note)
     cov = {
         "obligations": max(1, len(thms)),
         "discharged": discharged,
